@@ -294,6 +294,11 @@ def _flat_ops(req):
     return out
 
 
+def _standard_phrase(code: int) -> bytes:
+    from twisted.web._responses import RESPONSES
+    return RESPONSES.get(code, b"Unknown Status")
+
+
 def _expected(req, outcome: str):
     """independent bookkeeping of what the application set -> dict or a Failure reason (tag, text)"""
     hdr: dict[bytes, list[bytes]] = {}
@@ -322,7 +327,8 @@ def _expected(req, outcome: str):
             body += bytes.fromhex(op[1])
             continue
         if k == "code":
-            code, reason = op[1], (None if op[2] is None else bytes.fromhex(op[2]))
+            # the phrase is the one implied by THIS (the last) call: the message given, else the standard phrase of the code
+            code, reason = op[1], (_standard_phrase(op[1]) if op[2] is None else bytes.fromhex(op[2]))
             continue
         if k == "cookie":
             parts = [op[1], op[2]] + [op[3][a] for a in ATTRS if op[3][a] is not None]
@@ -937,6 +943,16 @@ def gen(rng, tier):
         ]
         for v in variants:
             cases.append({"split": False, "reqs": [v, nxt]})
+    # systematic: setResponseCode histories on ONE request - the phrase on the wire is the one implied by the LAST call
+    # (custom message then the same / another code without message, the reverse, three steps, the default 200)
+    for c, d in ((404, 500), (200, 404), (500, 200), (299, 404), (404, 299)):
+        for msg in (b"Nope", b"custom reason"):
+            for hist in ([[c, msg], [c, None]], [[c, msg], [d, None]], [[c, None], [c, msg]], [[c, None], [d, msg]],
+                         [[c, msg], [d, None], [c, None]], [[c, msg], [c, None], [c, msg]], [[c, msg], [c, msg + b"2"], [c, None]],
+                         [[200, msg], [200, None]], [[c, None], [c, None]]):
+                ops = [["code", k, None if m is None else m.hex()] for k, m in hist] + [["write", b"body".hex()]]
+                for v11 in (True, False):
+                    cases.append({"split": False, "reqs": [{"v11": v11, "head": False, "close": False, "ops": ops}, nxt]})
     # systematic: Content-Length / Transfer-Encoding present with an empty value list, by every route
     cl, te = {"b": b"content-length".hex()}, {"b": b"Transfer-Encoding".hex()}
     for v11 in (True, False):
